@@ -229,7 +229,8 @@ def retrieval_ops(r, ids, key, sri_t, which=None, pre=None):
         ops.append(f"rcheck {rid}")
         rid = ids.new("R")
         ops.append(f"ropen_hash {fl} c0 {rid} {sri_t}")
-        ops.append(f"rreadall {rid}")
+        # half of the time the vector read into already holds something (a frame header, the previous entry's bytes)
+        ops.append(f"rreadall {rid}" + (f" {hx(r.pick([b'HDR:', b'x' * 5000, key]))}" if r.chance(0.5) else ""))
         ops.append(f"rcheck {rid}")
         for op in ("copy", "copy_unchecked", "hard_link", "reflink"):
             d = dest(); ops.append(f"{op} {fl} c0 {hx(key)} out/{d}"); ops.append(f"cat out/{d}"); ops.append(f"stat out/{d}")
@@ -541,6 +542,63 @@ def gen_roundtrip_programs(r, n, big=0.03):
         ops.append("dump c0/content-v2")
         progs.append(Program(f"rthdr{hi}", ops, tags={"expect": [(widx, "sha256", d, reads, key)], "variety": ("header", hi)}))
     return progs
+
+
+def gen_streamed_readback_programs():
+    """Round trips whose read side is the STREAMING reader used the way callers use it: `read_to_end` into a vector
+    that already holds a header or the previous entry's bytes, a few bytes with `read` and the rest with `read_to_end`,
+    then `check()`; and the empty value read back after ANOTHER writer - declared size N, no bytes, commit rejected -
+    has come and gone (what it preallocated must not end up at the empty value's address)."""
+    progs = []
+    vals = [(b"sr-a", "sha256", b"first entry " * 3), (b"sr-b", "sha512", bytes(range(256)) * 300), (b"sr-c", "sha1", b"x")]
+    for fl in "sa":
+        ids = G.Ids()
+        ops, exp = [], []
+        for k, a, d in vals:
+            ops.append(w_oneshot(fl, a, k, d))
+        prev = b"FRAME-HEADER:"
+        for k, a, d in vals:
+            r1, r2 = ids.new("R"), ids.new("R")
+            ops += [f"ropen {fl} c0 {r1} {hx(k)}", f"rreadall {r1} {hx(prev)}"]; exp.append((len(ops) - 1, d))
+            ops.append(f"rcheck {r1}"); exp.append((len(ops) - 1, None))
+            ops += [f"ropen_hash {fl} c0 {r2} {sri_tok(a, d)}", f"rread {r2} 3"]; exp.append((len(ops) - 1, d[:3]))
+            ops.append(f"rreadall {r2} {hx(d[:3])}"); exp.append((len(ops) - 1, d[3:]))
+            ops.append(f"rcheck {r2}"); exp.append((len(ops) - 1, None))
+            prev = d[:40]
+        progs.append(Program(f"streamed-readback-{fl}", ops, tags={"sread": exp, "variety": ("sread", fl)}))
+    for fl in "sa":
+        for n_decl in (1, 4096, 1 << 20):
+            for keyed in (True, False):
+                if keyed and fl == "a":
+                    continue                     # keyed async writers never map their temp file
+                ops, exp = [], []
+                ops.append(w_oneshot(r_fl := ("a" if fl == "s" else "s"), "sha256", b"holds-nothing", b""))
+                w = "W1"
+                ops.append(f"wopen {fl} c0 {w} {hx(b'rejected') if keyed else '-'} algo=sha256 size={n_decl} sri=- time=- meta=- raw=-")
+                ops.append(f"wcommit {w}")
+                for f2 in "sa":
+                    ops.append(f"read {f2} c0 {hx(b'holds-nothing')}"); exp.append((len(ops) - 1, b""))
+                    ops.append(f"read_hash {f2} c0 {sri_tok('sha256', b'')}"); exp.append((len(ops) - 1, b""))
+                progs.append(Program(f"empty-after-rejected-{fl}-{n_decl}-{int(keyed)}", ops,
+                                     tags={"sread": exp, "variety": ("empty-after-rejected", fl, n_decl, keyed)}))
+    return progs
+
+
+def mon_streamed_readback(rr):
+    out = []
+    for i, want in rr.prog.tags["sread"]:
+        if i >= len(rr.impl):
+            break
+        res = toks(rr.impl[i])
+        op = rr.prog.ops[i].split(" ")[0]
+        if want is None:
+            if res[0] != "ok":
+                out.append(Failure("check_failed", i, f"check() of a streamed read of intact content -> {' '.join(res[:3])}",
+                                   sig={"op": "rcheck", "variety": rr.prog.tags["variety"][0]}))
+        elif res[0] != "ok" or unhx(res[1] if len(res) > 1 else "x") != want:
+            out.append(Failure("wrong_bytes", i, f"`{rr.prog.ops[i][:40]}` -> {' '.join(res[:2])[:50]} instead of the {len(want)} bytes stored",
+                               sig={"op": op, "variety": rr.prog.tags["variety"][0]}))
+    return out
 
 
 def gen_rewrite_same_programs():
